@@ -12,6 +12,9 @@ type OptPairs struct {
 
 func newOptPairs(args slip.List, p *slip.Printer) Node {
 	var op OptPairs
+	if len(args) == 0 {
+		return &Leaf{text: []byte{'(', ')'}}
+	}
 	op.children = append(op.children, buildNode(args[0], p))
 	for i := 1; i < len(args); i++ {
 		if i+1 < len(args) {
